@@ -19,10 +19,11 @@ const (
 	caDeclareTBC
 	caWrapPeer
 	caPcallTbcYield
+	caDeclareTBCCo
 	caNumActions
 )
 
-var coActionNames = []string{"yield", "resume-peer", "resume-self", "status", "error", "close-peer", "pcall-yield", "declare-tbc", "running", "yield-in-pcall-with-tbc"}
+var coActionNames = []string{"yield", "resume-peer", "resume-self", "status", "error", "close-peer", "pcall-yield", "declare-tbc", "running", "yield-in-pcall-with-tbc", "declare-tbc-handler-uses-coroutines"}
 
 func co(name string) Expr { return Glob("coroutine", name) }
 
@@ -46,6 +47,9 @@ func coAction(a int, x, p string, n int) []Stmt {
 	case caDeclareTBC:
 		id := fmt.Sprintf("%s-c%d", x, n)
 		return []Stmt{&Local{Names: []string{fmt.Sprintf("c%d", n)}, Attribs: []string{"close"}, Exprs: []Expr{gridCloser(id, ckPlain)}}}
+	case caDeclareTBCCo:
+		id := fmt.Sprintf("%s-cc%d", x, n)
+		return []Stmt{&Local{Names: []string{fmt.Sprintf("cc%d", n)}, Attribs: []string{"close"}, Exprs: []Expr{gridCloser(id, ckCoroutine)}}}
 	case caWrapPeer:
 		return []Stmt{Emit(tag("running"), C(N("select"), I(2), C(co("running"))), B("==", C(N("select"), I(1), C(co("running"))), N(x)))}
 	case caPcallTbcYield:
